@@ -235,7 +235,8 @@ StepOdrop(s, e) ==
   IF s.poison THEN [s EXCEPT !.out = @ \ {t}, !.tok = @ \ {t}]
   ELSE IF t \in s.out THEN [s EXCEPT !.out = @ \ {t}]
   ELSE IF t \in s.tok
-       THEN LET s1 == Chk(s, s.indrop \/ s.unw \/ (s.kind = "tja" /\ s.firstErr # 0), IF s.kind \in CollKinds THEN "C02" ELSE "C06",
+       THEN LET s1 == Chk(s, s.indrop \/ s.unw \/ (s.kind = "tja" /\ s.firstErr # 0),
+                          IF s.kind \in CollKinds THEN "C02" ELSE IF s.kind \in AdapterKinds THEN "C10" ELSE "C06",
                           "an output that was never handed out was destroyed while the collection is alive")
             IN [s1 EXCEPT !.tok = @ \ {t}]
        ELSE V(s, "C06", "output dropped twice (or never produced)")
